@@ -63,7 +63,8 @@ def make_ktable(wn, kcoeff, nq):
     try:
         return PickleKTable(f)
     finally:
-        os.remove(f)
+        import shutil
+        shutil.rmtree(d, ignore_errors=True)
 
 
 def make_request(rng, kind, ng, nn):
